@@ -21,6 +21,11 @@ def madd(x, y): return ('madd', x, y)
 def mmul(x, y): return ('mmul', x, y)
 def msum(a, x): return ('msum', a, x)
 def mlet(a, b, t): return ('mlet', a, b, t)
+def avar(a): return ('avar', a)
+def aadd(x, y): return ('aadd', x, y)
+def amul(x, y): return ('amul', x, y)
+def alam(a, x): return ('alam', a, x)
+def num(v): return ('num', v)
 def subst(b, x, t): return ('subst', b, x, t)
 def rule_if(name, lhs, rhs, cond, arg): return ('rule_if', name, lhs, rhs, cond, arg)
 def add(t): return ('add', t)
@@ -177,9 +182,35 @@ AN = AN + _an('A5', [add(_la), add(_lb), add(app(u(_lb), _la)), add(app(u(_lb), 
               'a node uses both the class that is merged away and the class whose datum improves in the same rebuild: it must still be re-canonicalised (congruence)', nn=1)
 _cc = app(var(0), var(1))
 AN = AN + _an('A6', [add(u(app(u(_cc), u(u(_cc))))), add(var(2)), union(_cc, var(2))], 'the improving class feeds one parent at two different depths: the parent datum improves twice within one rebuild')
+_d1 = app(_cc, _cc); _d2 = app(_d1, _d1); _d3 = app(_d2, _d2); _x8 = u(_cc); _p8 = app(_x8, _d3)
+AN = AN + _an('A8', [add(u(_p8)), add(app(_p8, _p8)), add(app(_p8, _x8)), add(app(_x8, _p8)), add(app(_d1, _p8)), add(var(2)), union(_cc, var(2))],
+              'the improving class reaches one node through two independent chains of depth 1 and 3: the node improves twice within one rebuild under any worklist order; five parents above it')
 for _t in AN: _t.light = True
-QUICK = QUICK + RW + EX + AN
-QUICK = _with_groups(QUICK, {'T1': ('rev',), 'T3': ('rev',), 'T4': ('flip',), 'B2': ('flip',), 'B5': ('rev',), 'TH2': ('rev',), 'B11': ('uflip',), 'B18': ('rev',), 'A5-MinSize': ('ufirst',), 'A5-Depth': ('ufirst',)})
+# --- constant folding with a modify hook (language La, numbers concrete, slot names symbolic): the hook adds (num v) to every class whose datum is Some(v) and
+# unions it - the analysis changes the equivalence itself, so the oracle closure contains the folded constants (oracle.const_closure)
+def _cp(name, nn, ops, note, distinct=None):
+    t = T(name, 'La', nn, ops, analysis='ConstProp', note=note + ' [analysis ConstProp, modify hook]', distinct=distinct); t.light = True; return t
+_x1 = aadd(avar(0), num(3))
+CP = [
+    _cp('CP1', 0, [add(aadd(num(2), amul(num(2), num(3)))), probe(num(8)), probe(aadd(num(2), num(6))), readd(amul(num(2), num(3)))],
+        'ground term: folded at insertion, the constant is added to the class by the hook'),
+    _cp('CP2', 2, [add(_x1), add(num(2)), union(avar(0), num(2)), probe(num(5)), add(aadd(avar(1), num(3)))],
+        'a variable becomes a constant by a union: the parent is re-analysed, folded, and loses its slot'),
+    _cp('CP3', 2, [add(amul(aadd(avar(0), num(1)), aadd(avar(1), avar(0)))), add(num(2)), union(avar(0), num(2)), probe(num(12)), probe(num(4))],
+        'constants travel two levels up within one union: modify -> union -> rebuild -> modify'),
+    _cp('CP4', 2, [add(alam(0, aadd(avar(0), num(1)))), add(alam(0, num(3))), add(num(2)), add(avar(1)), union(avar(1), num(2)), readd(alam(1, num(3)))],
+        'folding below a binder makes the binder node congruent to an existing one'),
+    _cp('CP5', 1, [add(aadd(aadd(num(1), num(2)), avar(0))), probe(aadd(num(3), avar(0))), add(aadd(num(3), avar(0)))],
+        'a folded child: the parent over the constant is the same e-node'),
+    _cp('CP6', 2, [add(aadd(aadd(avar(0), avar(1)), num(1))), add(num(7)), union(aadd(avar(0), avar(1)), num(7)), probe(num(8)), add(aadd(avar(1), avar(1)))],
+        'a class with two parameter slots and a parent is merged with a constant: the datum arrives from the other side of the union'),
+    _cp('CP7', 1, [add(amul(avar(0), num(1))), union(avar(0), amul(avar(0), num(1))), add(num(4)), union(amul(avar(0), num(1)), num(4)), probe(amul(num(4), num(1)))],
+        'cyclic class x = x * 1 becomes a constant'),
+    _cp('CP8', 2, [add(aadd(avar(0), avar(1))), add(amul(avar(0), avar(1))), union(aadd(avar(0), avar(1)), amul(avar(0), avar(1))), add(num(2)), union(avar(0), num(2)), probe(num(4))],
+        'two non-constant classes merged first, both become the same constant later'),
+]
+QUICK = QUICK + RW + EX + AN + CP
+QUICK = _with_groups(QUICK, {'T1': ('rev',), 'T3': ('rev',), 'T4': ('flip',), 'B2': ('flip',), 'B5': ('rev',), 'TH2': ('rev',), 'B11': ('uflip',), 'B18': ('rev',), 'A5-MinSize': ('ufirst',), 'A5-Depth': ('ufirst',), 'CP6': ('flip',), 'CP8': ('rev',)})
 
 for _t in QUICK:
     if _t.name.startswith('B11'): _t.light = True
